@@ -82,7 +82,7 @@ const TYPE_STRINGS: [&str; 25] = [
 
 #[derive(Clone, Debug, PartialEq)]
 enum Form {
-    /// plain substring pattern (case-insensitive)
+    /// plain substring pattern (case-insensitive; stored lower-cased)
     Plain(String),
     /// `||host^`
     HostCaret(String),
@@ -107,6 +107,8 @@ struct Ast {
     dom_neg: Vec<String>,
     important: bool,
     match_case: bool,
+    /// lower-cased body of a `Form::Regex`
+    regex_lower: String,
 }
 
 fn parse_rule(text: &str) -> Result<Ast, String> {
@@ -135,7 +137,7 @@ fn parse_rule(text: &str) -> Result<Ast, String> {
     } else if pat.len() > 2 && pat.starts_with('/') && pat.ends_with('/') && alnum(&pat[1..pat.len() - 1]) {
         Form::Regex(pat[1..pat.len() - 1].to_string())
     } else if alnum(pat) {
-        Form::Plain(pat.to_string())
+        Form::Plain(pat.to_ascii_lowercase())
     } else {
         return Err(format!("pattern outside the model: {:?}", pat));
     };
@@ -151,7 +153,11 @@ fn parse_rule(text: &str) -> Result<Ast, String> {
         dom_neg: vec![],
         important: false,
         match_case: false,
+        regex_lower: String::new(),
     };
+    if let Form::Regex(b) = &a.form {
+        a.regex_lower = b.to_ascii_lowercase();
+    }
     if let Some(opts) = opts {
         for o in opts.split(',') {
             let (negated, o) = match o.strip_prefix('~') {
@@ -352,14 +358,14 @@ fn scheme_clause(a: &Ast, o: &ORq) -> bool {
 
 fn pattern_clause(a: &Ast, o: &ORq) -> bool {
     match &a.form {
-        Form::Plain(t) => o.url_lower.contains(&t.to_ascii_lowercase()),
+        Form::Plain(t) => o.url_lower.contains(t.as_str()),
         Form::HostCaret(h) => covers(h, &o.host),
         Form::Pinned(_) | Form::Any => true,
         Form::Regex(b) => {
             if a.match_case {
                 o.url.contains(b.as_str())
             } else {
-                o.url_lower.contains(&b.to_ascii_lowercase())
+                o.url_lower.contains(a.regex_lower.as_str())
             }
         }
     }
@@ -505,7 +511,15 @@ fn classify(a: &Ast, o: &ORq, ev: &Eval, exp: bool, level: &str) -> String {
         }
         format!("c03.spurious.{}@{}", parts.join("+"), level)
     } else {
-        let mut s = format!("c03.lost.{}.type[{},{}{}]", form_kind(a), type_kind(a), req_class(o), if a.exception { ",exception" } else { "" });
+        // (called on the rule after `shrink_lost` removed every option group the loss does not
+        // depend on, so each part that is named here is needed to reproduce the loss)
+        let mut s = format!("c03.lost.{}{}", if a.exception { "exception-" } else { "" }, form_kind(a));
+        if a.pos | a.neg != 0 || req_class(o) != "network-request" {
+            s.push_str(&format!(".type[{},{}]", type_kind(a), req_class(o)));
+        }
+        if a.important {
+            s.push_str(".important");
+        }
         if let Some(p) = &a.party {
             s.push_str(&format!(".party[{}]", p));
         }
@@ -602,6 +616,89 @@ fn case_json(rule: &str, r: &Rq) -> Value {
 
 fn build_engine(rule: &str) -> Result<Engine, String> {
     catch(|| vh::net::engine(&[rule], true, false))
+}
+
+/// What the real code says about one (rule text, request) pair at one observation point.
+fn real_applies(rule: &str, exception: bool, r: &Rq, engine_level: bool) -> Option<bool> {
+    if engine_level {
+        let e = build_engine(rule).ok()?;
+        let res = if exception {
+            catch(|| e.check_network_request_subset(&r.req, true, true)).ok()?
+        } else {
+            catch(|| e.check_network_request(&r.req)).ok()?
+        };
+        Some(if exception { res.exception.is_some() } else { res.matched })
+    } else {
+        let f = catch(|| NetworkFilter::parse(rule, true, Default::default())).ok()?.ok()?;
+        let mut rm = RegexManager::default();
+        catch(|| f.matches(&r.req, &mut rm)).ok()
+    }
+}
+
+/// Classifier step for a lost match: greedily drop whole option groups (important, domain list,
+/// party, type options) from the rule while the reference still says "applies" and the real code
+/// still says "does not". What is left names the options the loss depends on. Deterministic
+/// (the real code is), and only ever executed on a mismatch.
+fn shrink_lost(rule: &str, r: &Rq, engine_level: bool) -> String {
+    let group = |o: &str| -> u8 {
+        let o = o.trim_start_matches('~');
+        let name = o.split('=').next().unwrap_or("");
+        match name {
+            "important" => 0,
+            "domain" | "from" => 1,
+            "third-party" | "3p" | "first-party" | "1p" => 2,
+            "match-case" => 9,
+            _ => 3,
+        }
+    };
+    let mut cur = rule.to_string();
+    for g in 0..4u8 {
+        let (head, opts) = match cur.rfind('$') {
+            Some(i) => (cur[..i].to_string(), cur[i + 1..].split(',').map(|x| x.to_string()).collect::<Vec<_>>()),
+            None => break,
+        };
+        if !opts.iter().any(|o| group(o) == g) {
+            continue;
+        }
+        let kept: Vec<String> = opts.into_iter().filter(|o| group(o) != g).collect();
+        let cand = if kept.is_empty() { head.clone() } else { format!("{}${}", head, kept.join(",")) };
+        if cand.trim_start_matches("@@") == "*" {
+            continue;
+        }
+        let a = match parse_rule(&cand) {
+            Ok(a) => a,
+            Err(_) => continue,
+        };
+        if Eval::of(&a, &r.o).applies() == Tri::Must(true) && real_applies(&cand, a.exception, r, engine_level) == Some(false) {
+            cur = cand;
+        }
+    }
+    if let Some(cand) = cur.strip_prefix("@@") {
+        if let Ok(a) = parse_rule(cand) {
+            if Eval::of(&a, &r.o).applies() == Tri::Must(true) && real_applies(cand, false, r, engine_level) == Some(false) {
+                cur = cand.to_string();
+            }
+        }
+    }
+    cur
+}
+
+/// Signature of a mismatch, and (for a lost match) the shrunk rule it was computed from.
+fn signature(rule: &str, a: &Ast, r: &Rq, ev: &Eval, exp: bool, level: &str) -> (String, String) {
+    if !exp {
+        return (classify(a, &r.o, ev, exp, level), String::new());
+    }
+    let core = shrink_lost(rule, r, level != "matcher");
+    if core == rule {
+        return (classify(a, &r.o, ev, exp, level), String::new());
+    }
+    match parse_rule(&core) {
+        Ok(ca) => {
+            let cev = Eval::of(&ca, &r.o);
+            (classify(&ca, &r.o, &cev, exp, level), format!(" (already lost with only {:?})", core))
+        }
+        Err(_) => (classify(a, &r.o, ev, exp, level), String::new()),
+    }
 }
 
 /// Evaluates one rule against a list of requests at both observation points.
@@ -724,11 +821,13 @@ fn check_rule(rule: &str, rqs: &[Rq], l: &mut Local) {
                     }] += 1;
                     if exp != got {
                         matcher_ok = false;
+                        let (sig, core) = signature(rule, &a, r, &ev, exp, "matcher");
                         l.mismatch(Mismatch {
-                            sig: classify(&a, &r.o, &ev, exp, "matcher"),
+                            sig,
                             what: format!(
-                                "rule {:?} vs {} {:?} from {:?}: option semantics say {}, NetworkFilter::matches says {}",
+                                "rule {:?}{} vs {} {:?} from {:?}: option semantics say {}, NetworkFilter::matches says {}",
                                 rule,
+                                core,
                                 r.ty,
                                 r.url,
                                 r.src,
@@ -810,11 +909,13 @@ fn check_rule(rule: &str, rqs: &[Rq], l: &mut Local) {
                 }] += 1;
                 if exp != got_e {
                     let level = if matcher_ok && got_m.is_some() { "engine-only" } else { "engine" };
+                    let (sig, core) = signature(rule, &a, r, &ev, exp, level);
                     l.mismatch(Mismatch {
-                        sig: classify(&a, &r.o, &ev, exp, level),
+                        sig,
                         what: format!(
-                            "rule {:?} vs {} {:?} from {:?}: option semantics say {}, single-rule engine says {} (matcher says {:?})",
+                            "rule {:?}{} vs {} {:?} from {:?}: option semantics say {}, single-rule engine says {} (matcher says {:?})",
                             rule,
+                            core,
                             r.ty,
                             r.url,
                             r.src,
@@ -954,6 +1055,9 @@ fn requests_a(extra_path: bool, counters: &mut Vec<(String, u64)>) -> Vec<Rq> {
         for scheme in SCHEMES {
             for src in ["https://other.net/page", "https://sub.example.com/page", ""] {
                 for ty in TYPE_STRINGS {
+                    if *path != "/ads" && !["script", "websocket", "document", "image", "xhr", "other"].contains(&ty) {
+                        continue; // the second URL is about the index token, not about type aliases
+                    }
                     let url = url_for(scheme, "example.com", path);
                     match make_rq(&url, src, ty) {
                         Some(r) => out.push(r),
@@ -1217,7 +1321,7 @@ fn check(ctx: &Ctx) -> i32 {
     ctx.par_range("cubeA:type-x-party-x-scheme", cube.total(), 8, |i, l| {
         let (form, rule) = cube.rule(i);
         let rqs = if form >= 2 { &rq_a2 } else { &rq_a };
-        if l.samples.len() < 2 && (i + ctx.seed) % 250_007 == 0 {
+        if l.samples.is_empty() && (i + ctx.seed) % (cube.total() / 3 + 1) == 7 {
             l.samples.push(json!({"universe": "A", "rule": rule, "requests": rqs.len(), "first_request": [rqs[0].url, rqs[0].src, rqs[0].ty]}));
         }
         check_rule(&rule, rqs, l);
@@ -1232,7 +1336,7 @@ fn check(ctx: &Ctx) -> i32 {
     ctx.bound("cubeB_requests_per_rule", rq_b.len());
     ctx.par_range("cubeB:domain-x-initiator", rules_b.len() as u64, 8, |i, l| {
         let rule = &rules_b[i as usize];
-        if l.samples.len() < 3 && (i + ctx.seed) % 12_007 == 0 {
+        if (i + ctx.seed) % (rules_b.len() as u64 / 3 + 1) == 7 {
             l.samples.push(json!({"universe": "B", "rule": rule, "requests": rq_b.len()}));
         }
         check_rule(rule, &rq_b, l);
@@ -1246,7 +1350,7 @@ fn check(ctx: &Ctx) -> i32 {
     ctx.bound("cubeC_requests_per_rule", rq_c.len());
     ctx.par_range("cubeC:match-case", rules_c.len() as u64, 4, |i, l| {
         let rule = &rules_c[i as usize];
-        if l.samples.len() < 1 && (i + ctx.seed) % 97 == 0 {
+        if (i + ctx.seed) % 97 == 5 {
             l.samples.push(json!({"universe": "C", "rule": rule, "requests": rq_c.len()}));
         }
         check_rule(rule, &rq_c, l);
